@@ -45,6 +45,9 @@ def relay_universe():
         # signed event with an empty tag): whatever the handler makes of them, OK=true needs a fan-out
         E("fh", "B", 1, 37, [["t", "a"]], mutate=_nonhex_sig),
         E("we", "A", 1, 38, [["t", "a"], []]),
+        # a tag whose value is an array, beside an ordinary one: whatever matching makes of it, the tasks of its fan-out must
+        # not disturb the next event's acknowledgement
+        E("wl", "A", 1, 44, [["t", "lst"], ["t", "a"]]),
     ]
 
 
@@ -191,7 +194,7 @@ def run(prop, tier, seed, backends=BACKENDS, only_universe=None):
     design = tlc.DesignCheck([("MC_Relay", "MC_Relay_%s%s.cfg" % (b, "_quick" if tier == "quick" else ""), "Relay/" + b) for b in backends]
                              + ([("MC_Relay_live", "MC_Relay_live.cfg", "Relay/liveness-under-fairness")] if prop in ("C13", "C05") else []),
                              workers=3 if tier == "quick" else 7, timeout=3000)
-    variants = [(Universe(relay_universe()), "hostile" if prop == "C04" else "plain")]
+    variants = [(Universe(relay_universe(), symtab=WEIRD_SYMTAB), "hostile" if prop == "C04" else "plain")]
     if prop == "C04":
         # contents, tag values and tag items that pass admission but stress the hand-written serialiser and both encodings
         for pal in ("quotes", "nul", "unicode", "bslash"):
